@@ -491,12 +491,15 @@ func history(run, steps, conc int, seed int64) ([]map[string]any, error) {
 	evs := []map[string]any{{"op": "world", "run": run, "store": "hist", "init": initIDs, "readers": []int{}, "posters": []int{}, "order": []int{}, "clients": n}}
 	next := 200
 	total := len(text)
+	// the free-running phase below adds (conc/3)*12 short posts: the sequential phase stops growing the board early
+	// enough for the whole run to stay under the 64 KiB field limit (the property's quantifier)
+	reserve := ((conc + 2) / 3) * 12 * 160
 	var lastBody []byte
 	lastCi := 0
 	for s := 0; s < steps; s++ {
 		ci := rng.Intn(n)
 		c := clients[ci]
-		if rng.Intn(3) > 0 && total < 60000 {
+		if rng.Intn(3) > 0 && total < 60000-reserve {
 			var body []byte
 			if lastBody != nil && rng.Intn(4) == 0 {
 				// the same user posts the very same text again (a repeated post is a post)
@@ -504,7 +507,7 @@ func history(run, steps, conc int, seed int64) ([]map[string]any, error) {
 			} else {
 				next++
 				size := []int{0, 1, 10, 200, 1000, 5000}[rng.Intn(6)]
-				if total+size > 62000 {
+				if total+size > 62000-reserve {
 					size = 10
 				}
 				body = []byte(fmt.Sprintf("<<P%d>>%s", next, bytes.Repeat([]byte{byte('A' + next%26)}, size)))
